@@ -13,7 +13,7 @@ import (
 // first: the Lean model of the escaper gives E(out(T)), and its alphabet / decoding predicates are evaluated
 // on the real output. The oracle does not involve the interpreter model.
 func regionRel(r *Run, kind, cmd string, n int) {
-	cfg := GenCfg{MaxDepth: 3, MaxNodes: 14, Loops: true, Switch: true, Ternary: true, Include: true, Exit: true, Region: true, NoRaw: true,
+	cfg := GenCfg{MaxDepth: 3, MaxNodes: 14, Loops: true, Switch: true, Ternary: true, Include: true, Exit: true, Region: true, NoRaw: true, NoCross: true,
 		Letters: true, Mods: true, PreSuf: true, CtxSet: true, Counter: true, Helpers: true}
 	var cases []*RCase
 	var lines []string
